@@ -101,7 +101,7 @@ Section Proofs.
        forall r' a' b', In (r', (a', b')) E -> rk a' = rk b' -> rk a' = rk a -> r' = r).
   Proof.
     intros single rk H r a b Hin. unfold order_ok in H. rewrite forallb_forall in H.
-    specialize (H (r, (a, b)) Hin). unfold tfrom, tto, flat in H. cbn [fst snd] in H.
+    specialize (H (r, (a, b)) Hin). unfold flat, tfrom, tto in H. cbn [fst snd] in H.
     destruct (Nat.ltb (rk a) (rk b)) eqn:Hlt.
     - left. apply Nat.ltb_lt. exact Hlt.
     - right. destruct (Nat.eqb (rk a) (rk b)) eqn:Heq; [cbn [negb] in H | cbv [negb] in H; discriminate H].
@@ -180,6 +180,15 @@ Section Proofs.
   Proof.
     intros single rk Hok Hsing s Hr c Hc.
     apply (order_ok_no_deadlocked_set single rk Hok Hsing s Hr c). apply wait_cycle_deadlocked. exact Hc.
+  Qed.
+
+  Corollary order_ok_no_deadlock_both : forall single rk,
+    order_ok single rk E = true -> singles_respected single ->
+    forall s, reachable E role_of can_grant s -> (forall D, ~ deadlocked s D) /\ (forall c, ~ wait_cycle s c).
+  Proof.
+    intros single rk Hok Hsing s Hr. split.
+    - apply (order_ok_no_deadlocked_set single rk Hok Hsing s Hr).
+    - apply (order_ok_no_deadlock single rk Hok Hsing s Hr).
   Qed.
 
   (* the plain check is the special case without single roles *)
@@ -331,10 +340,11 @@ Ltac solve_not_in := cbn; intuition discriminate.
 
 (* an acyclic relation with a reachable state in which a thread really waits (thread 0 holds 1 and 2,
    thread 1 holds nothing and waits for 1): the theorem applies and the state can move *)
-Definition exE : list edge := [(1,2); (2,3); (1,3)]%N.
+Definition exE : list tedge := [(0, (1,2)); (0, (2,3)); (0, (1,3))]%N.
+Definition one_role : thread -> role := fun _ => 0%N.
 Example ex_reachable_waiting :
-  acyclic exE = true /\
-  exists s, reachable exE excl_grant s /\ waiting (s 1) = Some 1%N /\ held (s 0) = [2; 1]%N /\
+  acyclic (untag exE) = true /\
+  exists s, reachable exE one_role excl_grant s /\ waiting (s 1) = Some 1%N /\ held (s 0) = [2; 1]%N /\
             waits_for s 1 0.
 Proof.
   split. vm_compute; reflexivity.
@@ -352,9 +362,9 @@ Proof.
 Qed.
 
 (* without acyclicity the machine does deadlock: the classic inversion *)
-Definition badE : list edge := [(1,2); (2,1)]%N.
+Definition badE : list tedge := [(0, (1,2)); (0, (2,1))]%N.
 Example cyclic_can_deadlock :
-  acyclic badE = false /\ exists s, reachable badE excl_grant s /\ wait_cycle s [0; 1].
+  acyclic (untag badE) = false /\ exists s, reachable badE one_role excl_grant s /\ wait_cycle s [0; 1].
 Proof.
   split. vm_compute; reflexivity.
   eexists. split.
@@ -374,3 +384,19 @@ Proof.
     + exists 2%N. cbn. split. reflexivity. tauto.
     + exists 1%N. cbn. split. reflexivity. tauto.
 Qed.
+
+(* the refined check: the scheduling loop (role 1, single) nests application locks in both orders (as observed
+   on the real scheduler: tryAllocate of one application reads the allocations of the others when it looks
+   for preemption victims); the plain check rejects the relation, the refined one accepts it with a rank that
+   puts both application locks (5, 6) on one level ... *)
+Definition schedE : list tedge := [(1, (5,6)); (1, (6,5)); (2, (4,5)); (1, (5,7)); (2, (6,7))]%N.
+Definition sched_rank (l : lock) : nat := match l with 4%N => 0 | 5%N => 1 | 6%N => 1 | _ => 2 end.
+Example order_ok_single_role :
+  acyclic (untag schedE) = false /\ order_ok (N.eqb 1) sched_rank schedE = true.
+Proof. split; vm_compute; reflexivity. Qed.
+(* ... but not when the role is not declared single, nor when a second role contributes a level edge *)
+Example order_ok_needs_single : order_ok (fun _ => false) sched_rank schedE = false.
+Proof. vm_compute; reflexivity. Qed.
+Example order_ok_two_roles :
+  order_ok (fun _ => true) sched_rank [(1, (5,6)); (2, (6,5))]%N = false.
+Proof. vm_compute; reflexivity. Qed.
